@@ -42,15 +42,13 @@ var failed = map[string]string{}
 func runGen(name string, files []string, f func()) {
 	for _, sk := range strings.Split(*skip, ",") {
 		if sk == name {
-			// not needed by this check: keep what is there, or the baseline (never stale data for the property that needs it:
-			// its own check does not skip it)
+			// not needed by this check: the baseline copy stands in (the check of the property that needs this generator
+			// does not skip it)
 			for _, fn := range files {
-				path := filepath.Join(*outDir, fn)
-				written[path] = true
-				if _, err := os.Stat(path); err != nil {
-					if b, err := os.ReadFile(filepath.Join(*baselineDir, fn)); err == nil {
-						writeFile(fn, string(b))
-					}
+				if b, err := os.ReadFile(filepath.Join(*baselineDir, fn)); err == nil {
+					writeFile(fn, string(b))
+				} else {
+					written[filepath.Join(*outDir, fn)] = true
 				}
 			}
 			return
